@@ -246,6 +246,10 @@ def stepD (st : DSt) (fs : List String) : DSt × String :=
     match n.toNat?, k.toNat? with
     | some n, some k => if n = 0 ∨ k ≥ n then (st, "bad-op") else (st, "ok|token:gone")
     | _, _ => (st, "bad-op")
+  | ["batchuses", how] =>
+    -- a use limit can only be promised for a token whose uses are counted (a stored entry): the request for a use-limited
+    -- batch token is refused (`C19.limit_needs_counted_uses`), whether the limit comes from the request or from the role
+    (st, match how with | _ => "refused")
   | ["orphanrace", n] =>
     -- a rewrite of the entry that is not a use (orphaning) interleaved with a use: the count is the uses' alone
     -- (`C19.non_use_rewrite_preserves_count`)
